@@ -203,7 +203,7 @@ Proof.
   - apply andb_true_iff in E as [_ E].
     destruct (first_hop_after_xover_prev _ Hv E) as (i & h & -> & ->).
     destruct (get_if c _) as [f|]; [|fin]. destruct (_ && _); fin.
-  - destruct (get_if c _) as [f|]; [|fin]. destruct (_ && _); fin.
+  - clear E. destruct (get_if c _) as [f|]; [|fin]. destruct (_ && _); fin.
 Qed.
 
 Lemma resp_src_good s : pkt_inv (s_p s) -> out_good (resp_invalid_src_ia s).
